@@ -713,7 +713,7 @@ impl World {
         let working = self.tvals();
         self.txn.take().unwrap().commit();
         let c = self.contents();
-        if c != working { sink.oracle_fail("C07", &format!("commit: contents {c:?} differ from the transaction's working contents {working:?}")); }
+        if c != working { sink.oracle_fail("C07,C17", &format!("commit: contents {c:?} differ from the transaction's working contents {working:?}")); }
         self.reference = c.clone();
         if self.tsize > 0 && self.rx_count() > 0 { self.published(sink, c.clone(), self.tsize, false); }
         let w = self.woke_text();
